@@ -84,11 +84,39 @@ def run_main(argv, capture=False):
     return None, buf.getvalue()
 
 
+def cli_db_args(files, dbs):
+    "`--db a b` or `--db a --db b` (the option appends lists)"
+    paths = [files.db(i, d) for i, d in enumerate(dbs)]
+    if len(paths) > 1 and nxt(2):
+        return [x for p in paths for x in ("--db", p)]
+    return ["--db"] + paths
+
+
+def cli_query_args(files, sigs):
+    "`--query q1 q2`, `--query q1 --query q2`, `--query q1 --query-from-file <q2>`, or (one query: the list file is read as a set) `--query-from-file`"
+    paths = [files.sig(i, s) for i, s in enumerate(sigs)]
+    r = nxt(4)
+    if r == 1 and len(paths) == 1:
+        lst = os.path.join(files.d, "queries.txt")
+        with open(lst, "w") as fp:
+            fp.write(paths[0] + "\n")
+        return ["--query-from-file", lst]
+    if r == 3 and len(paths) > 1:
+        # both options at once: the files of --query come first, then the one listed in the file
+        lst = os.path.join(files.d, "queries.txt")
+        with open(lst, "w") as fp:
+            fp.write(paths[-1] + "\n")
+        return ["--query"] + paths[:-1] + ["--query-from-file", lst]
+    if r == 2 and len(paths) > 1:
+        return [x for p in paths for x in ("--query", p)]
+    return ["--query"] + paths
+
+
 def run_cli_summarize(files, dbs, sigs, thr, scaled, ign):
     import csv as _csv
     out = os.path.join(files.d, "summ.csv")
-    argv = ["lca", "summarize", "--db"] + [files.db(i, d) for i, d in enumerate(dbs)] + \
-        ["--query"] + [files.sig(i, s) for i, s in enumerate(sigs)] + ["--threshold", str(thr), "-o", out]
+    argv = ["lca", "summarize"] + cli_db_args(files, dbs) + cli_query_args(files, sigs) + \
+        ["--threshold", str(thr), "-o", out]
     if scaled:
         argv += ["--scaled", str(scaled)]
     if ign:
@@ -124,8 +152,8 @@ def run_cli_summarize(files, dbs, sigs, thr, scaled, ign):
 def run_cli_classify(files, dbs, sigs, thr, scaled, maj):
     import csv as _csv
     out = os.path.join(files.d, "cls.csv")
-    argv = ["lca", "classify", "--db"] + [files.db(i, d) for i, d in enumerate(dbs)] + \
-        ["--query"] + [files.sig(i, s) for i, s in enumerate(sigs)] + ["--threshold", str(thr), "-o", out]
+    argv = ["lca", "classify"] + cli_db_args(files, dbs) + cli_query_args(files, sigs) + \
+        ["--threshold", str(thr), "-o", out]
     if scaled:
         argv += ["--scaled", str(scaled)]
     if maj:
@@ -277,12 +305,163 @@ def exc_name(e):
     return type(e).__name__
 
 
+# --------------------------------------------------------------------------
+# one modelled operation, several routes: a per-case counter the model does not see picks the spelling
+
+ROUTE = [0]
+
+
+def nxt(n):
+    ROUTE[0] += 1
+    return ROUTE[0] % n
+
+
+def is_sql(db):
+    return not isinstance(db, LCA_Database)
+
+
+def la_answer(db, h, mn, route):
+    "get_lineage_assignments through the method (keyword / positional) or straight from the tables"
+    if route == 1 and not is_sql(db):
+        return db.get_lineage_assignments(h, mn)
+    if route == 2 and mn is None:
+        if is_sql(db):
+            idxs = db.hashval_to_idx.get(h, [])
+            return [db.lid_to_lineage[db.idx_to_lid[i]] for i in idxs if i in db.idx_to_lid]
+        idxs = db._hashval_to_idx.get(h, [])
+        return [db._lid_to_lineage[db._idx_to_lid[i]] for i in idxs if i in db._idx_to_lid]
+    return db.get_lineage_assignments(h, min_num=mn)
+
+
+def ids_answer(db, h, route):
+    if route == 1:
+        if is_sql(db):
+            return [db.idx_to_ident[i] for i in db.hashval_to_idx.get(h, [])]
+        return [db._idx_to_ident[i] for i in db._hashval_to_idx.get(h, [])]
+    if route == 2 and is_sql(db):
+        try:
+            return [db.idx_to_ident[i] for i in db.hashval_to_idx[h]]      # __getitem__: KeyError when absent
+        except KeyError:
+            return []
+    return list(db.get_identifiers_for_hashval(h))
+
+
+def sigs_answer(db, route):
+    if route == 1:
+        out = []
+        for ss, loc in db.signatures_with_location():
+            assert loc == db.location, (loc, db.location)
+            out.append(ss)
+        return out
+    if route == 2 and not is_sql(db):
+        return [ss for ss, _ in db._signatures_with_internal()]
+    return list(db.signatures())
+
+
+def read_op(D, op, a, route, keep=None):
+    "the read-only operations: a canonical observation string"
+    db = D[int(a[0])]
+    if op == "info":
+        return f"ok ksize={db.ksize} scaled={db.scaled} mol={MOLTYPES.index(db.moltype)}"
+    if op == "len":
+        return f"ok {len(db)}"
+    if op == "la":
+        h = int(a[1])
+        mn = int(a[2]) if len(a) > 2 and int(a[2]) else None
+        lins = la_answer(db, h, mn, route)
+        return "ok " + join_or("|", sorted(show_lineage(x) for x in lins))
+    if op == "ids":
+        ids = ids_answer(db, int(a[1]), route)
+        return "ok " + join_or(",", sorted(tok_of(i) if isinstance(i, str) else "set()" for i in ids))
+    if op == "hv":
+        return "ok " + join_or(",", [str(h) for h in sorted(db.hashvals)])
+    if op == "sigs":
+        # a reconstructed sketch must be AT the database's scaled (a cache surviving downsample_scaled
+        # keeps the old value: seeded C18b); the model prints the marker only for the documented SQLite case
+        dsc = db.scaled
+        sigs = sigs_answer(db, route)
+        if keep is not None:
+            keep.extend((ss, ss.name, tuple(sorted(ss.minhash.hashes)), ss.minhash.scaled) for ss in sigs)
+        items = [tok_of(ss.name) + ("" if ss.minhash.scaled == dsc else f"@scaled{ss.minhash.scaled}") + "="
+                 + join_or(",", [str(h) for h in sorted(ss.minhash.hashes)]) for ss in sigs]
+        return "ok " + join_or("|", sorted(items))
+    raise KeyError(op)
+
+
+READ_OPS = ("info", "len", "la", "ids", "hv", "sigs")
+
+
+def views(db):
+    """whatever can be read about a database through two routes must agree; returns '' or what disagrees"""
+    bad = []
+    sigs = list(db.signatures())
+    if len(db) != len(sigs):
+        bad.append(f"len={len(db)} but signatures() yields {len(sigs)}")
+    union = set()
+    for ss in sigs:
+        union.update(ss.minhash.hashes)
+    hv = list(db.hashvals)
+    if len(hv) != len(set(hv)):
+        bad.append("hashvals has duplicates")
+    if set(hv) != union:
+        bad.append(f"hashvals {sorted(set(hv) ^ union)[:4]} not the union of the sketches")
+    if is_sql(db):
+        if len(db) != len(db.manifest):
+            bad.append("len != len(manifest)")
+        for idx, lid in db.idx_to_lid.items():
+            if lid not in db.lid_to_lineage:
+                bad.append("idx_to_lid points to an unknown lid")
+    else:
+        if db._next_index != len(db._ident_to_idx) or len(db) != db._next_index:
+            bad.append("len / _next_index / _ident_to_idx disagree")
+        if set(db._ident_to_idx) != set(db._ident_to_name):
+            bad.append("_ident_to_idx and _ident_to_name have different identifiers")
+        for ident, idx in db._ident_to_idx.items():
+            if db._idx_to_ident[idx] != ident:
+                bad.append("_idx_to_ident is not the inverse of _ident_to_idx")
+        l2i = db._lid_to_idx
+        for idx, lid in db._idx_to_lid.items():
+            if lid not in db._lid_to_lineage:
+                bad.append("_idx_to_lid points to an unknown lid")
+            if idx not in l2i[lid]:
+                bad.append("_lid_to_idx misses an idx")
+        if sum(len(v) for v in l2i.values()) != len(db._idx_to_lid):
+            bad.append("_lid_to_idx is not the inverse of _idx_to_lid")
+        for lin, lid in db._lineage_to_lid.items():
+            if db._lid_to_lineage[lid] != lin:
+                bad.append("_lineage_to_lid / _lid_to_lineage disagree")
+        for h, idxs in db._hashval_to_idx.items():
+            if not idxs:
+                bad.append("an empty idx set in _hashval_to_idx")
+            if not set(idxs) <= set(db._idx_to_ident):
+                bad.append("_hashval_to_idx names an unknown idx")
+        names = sorted(ss.name for ss in sigs)
+        if names != sorted(db._ident_to_name.values()):
+            bad.append("signature names differ from _ident_to_name")
+    return "; ".join(bad[:2])
+
+
 def main():
     os.makedirs(TMPROOT, exist_ok=True)
     tmpdir = tempfile.mkdtemp(prefix="lca-", dir=TMPROOT)
     nfile = [0]
     S, D = {}, {}
     out = sys.stdout
+    EPOCH = {}          # db handle -> number of mutations seen
+    LOG = []            # (db handle, epoch, op, args, observation) of every read op of the case
+    KEPT = []           # (signature object, name, hashes, scaled) of every signature a `sigs` op returned
+
+    def recheck():
+        "histories, not calls: every object handed out keeps its content; every answer is reproducible"
+        for ss, name, hs, sc in KEPT:
+            if ss.name != name or tuple(sorted(ss.minhash.hashes)) != hs or ss.minhash.scaled != sc:
+                return f"stale signature-object-changed {tok_of(name)}"
+        for d, ep, op_, a_, obs in reversed(LOG[-80:]):
+            if d in D and EPOCH.get(d, 0) == ep:
+                again = read_op(D, op_, a_, nxt(3))
+                if again != obs:
+                    return f"stale `{op_} {' '.join(a_)}` answered {obs[:60]} then {again[:60]}"
+        return "ok"
 
     def close_all():
         for db in D.values():
@@ -304,7 +483,14 @@ def main():
                 if op == "#":
                     close_all()
                     S, D = {}, {}
+                    ROUTE[0] = 0
+                    EPOCH.clear()
+                    del LOG[:]
+                    del KEPT[:]
                     out.write("#\n")
+                    continue
+                if op == "recheck":
+                    out.write(recheck() + "\n")
                     continue
                 if op == "sig":
                     r, name, filename, scaled, num, ksize, hs = a[:7]
@@ -329,64 +515,99 @@ def main():
                     opts = dict(t.split("=", 1) for t in a[3:])
                     D[d] = LCA_Database(ksize, scaled, MOLTYPES[int(opts.get("mol", 0))])
                     res = "ok"
-                elif op == "info":
-                    db = D[int(a[0])]
-                    res = f"ok ksize={db.ksize} scaled={db.scaled} mol={MOLTYPES.index(db.moltype)}"
+                elif op in READ_OPS:
+                    d = int(a[0])
+                    res = read_op(D, op, a, nxt(3), keep=KEPT)
+                    again = read_op(D, op, a, nxt(3))          # read-only entry points, twice, by another route
+                    if again != res:
+                        res = f"twice-differs {res[:80]} / {again[:80]}"
+                    else:
+                        LOG.append((d, EPOCH.get(d, 0), op, list(a), res))
+                    if op in ("sigs", "len", "hv") and res.startswith("ok"):
+                        v = views(D[d])
+                        if v:
+                            res = "views-disagree " + v
                 elif op == "ins":
                     d, r = int(a[0]), int(a[1])
                     ident = None if a[2] == "-" else name_of(a[2])
-                    n = D[d].insert(S[r], ident=ident, lineage=lineage_of(a[3]))
+                    lin = lineage_of(a[3])
+                    EPOCH[d] = EPOCH.get(d, 0) + 1
+                    route = nxt(4)
+                    if route == 1:
+                        n = D[d].insert(S[r], ident, lin)                       # positional
+                    elif route == 2:
+                        n = D[d].insert(S[r], ident=(ident or ""), lineage=(list(lin) if lin else []))
+                    elif route == 3 and ident is None:
+                        n = D[d].insert(S[r], lineage=lin)                      # defaults
+                    else:
+                        n = D[d].insert(S[r], ident=ident, lineage=lin)
                     res = f"ok {n}"
-                elif op == "len":
-                    res = f"ok {len(D[int(a[0])])}"
-                elif op == "la":
-                    d, h = int(a[0]), int(a[1])
-                    mn = int(a[2]) if len(a) > 2 and int(a[2]) else None
-                    lins = D[d].get_lineage_assignments(h, min_num=mn)
-                    res = "ok " + join_or("|", sorted(show_lineage(x) for x in lins))
-                elif op == "ids":
-                    d, h = int(a[0]), int(a[1])
-                    ids = list(D[d].get_identifiers_for_hashval(h))
-                    res = "ok " + join_or(",", sorted(tok_of(i) if isinstance(i, str) else "set()" for i in ids))
-                elif op == "hv":
-                    hv = sorted(D[int(a[0])].hashvals)
-                    res = "ok " + join_or(",", [str(h) for h in hv])
-                elif op == "sigs":
-                    # a reconstructed sketch must be AT the database's scaled (a cache surviving downsample_scaled
-                    # keeps the old value: seeded C18b); the model never prints the marker
-                    dsc = D[int(a[0])].scaled
-                    items = [tok_of(ss.name) + ("" if ss.minhash.scaled == dsc else f"@scaled{ss.minhash.scaled}") + "="
-                             + join_or(",", [str(h) for h in sorted(ss.minhash.hashes)])
-                             for ss in D[int(a[0])].signatures()]
-                    res = "ok " + join_or("|", sorted(items))
+                    v = views(D[d])
+                    if v:
+                        res = "views-disagree " + v
                 elif op == "down":
                     d, sc = int(a[0]), int(a[1])
+                    EPOCH[d] = EPOCH.get(d, 0) + 1
                     D[d].downsample_scaled(sc)
                     res = f"ok {D[d].scaled}"
+                    v = views(D[d])
+                    if v:
+                        res = "views-disagree " + v
                 elif op in ("json", "sql"):
                     d, e = int(a[0]), int(a[1])
                     src = D[d]
                     if not isinstance(src, LCA_Database):
-                        raise NotImplementedError
+                        src.insert(None)                                        # read-only twin: NotImplementedError
                     nfile[0] += 1
-                    path = os.path.join(tmpdir, f"db{nfile[0]}.lca." + op)
-                    try:
-                        src.save(path, format=op)
-                        new = LCA_Database.load(path)
-                    finally:
-                        if op == "json" and os.path.exists(path):
-                            os.unlink(path)
+                    EPOCH[e] = EPOCH.get(e, 0) + 1
+                    from sourmash.lca.lca_db import load_single_database, load_databases
+                    from sourmash.index.sqlite_index import LCA_SqliteDatabase
                     if op == "json":
+                        path = os.path.join(tmpdir, f"db{nfile[0]}.lca.json" + (".gz" if nxt(2) else ""))
+                        [lambda: src.save(path), lambda: src.save(path, format="json"), lambda: src.save_to_json(path)][nxt(3)]()
+                        try:
+                            new = [lambda: LCA_Database.load(path), lambda: load_single_database(path)[0],
+                                   lambda: load_databases([path], verbose=False)[0][0],
+                                   lambda: sourmash.load_file_as_index(path)][nxt(4)]()
+                        finally:
+                            if os.path.exists(path):
+                                os.unlink(path)
                         assert type(new) is LCA_Database
+                        if nxt(2):
+                            # select() with the database's own parameters is the database itself, and changes nothing
+                            assert new.select(ksize=new.ksize, moltype=new.moltype, containment=True) is new
+                            assert os.path.basename(path) in repr(new), repr(new)
+                    else:
+                        path = os.path.join(tmpdir, f"db{nfile[0]}.lca.sql")
+                        [lambda: src.save(path, format="sql"), lambda: src.save_to_sql(path)][nxt(2)]()
+                        new = [lambda: LCA_Database.load(path), lambda: LCA_SqliteDatabase.load(path),
+                               lambda: sourmash.load_file_as_index(path),
+                               lambda: LCA_Database.load(path).select(ksize=src.ksize)][nxt(4)]()
+                        assert type(new) is LCA_SqliteDatabase, type(new)
                     old = D.get(e)
                     if old is not None and getattr(old, "conn", None) is not None and old is not src:
                         old.conn.close()
                     D[e] = new
                     res = "ok"
+                    v = views(new)
+                    if v:
+                        res = "views-disagree " + v
                 elif op == "lca":
                     lins = lineages_of(a[0])
-                    r1 = lca_utils.find_lca(lca_utils.build_tree(lins))
-                    r2 = LineageTree(lins).find_lca()
+                    route = nxt(3)
+                    if route == 1 and lins:
+                        tree = {}                                   # grown one lineage at a time (`initial=`)
+                        for l in lins:
+                            lca_utils.build_tree([l], tree)
+                        r1 = lca_utils.find_lca(tree)
+                    else:
+                        r1 = lca_utils.find_lca(lca_utils.build_tree(lins))
+                    positional = lins and all(len(l) <= len(TAXLIST) and [p.rank for p in l] == TAXLIST[:len(l)] for l in lins)
+                    if route == 2 and positional and all(l for l in lins):
+                        from sourmash.tax.tax_utils import RankLineageInfo
+                        r2 = LineageTree([RankLineageInfo(lineage=l) for l in lins]).find_lca()
+                    else:
+                        r2 = LineageTree(lins).find_lca()
                     if tuple(r1[0]) != tuple(r2[0]) or r1[1] != r2[1]:
                         res = f"twins-disagree {show_lineage(r1[0])} {r1[1]} / {show_lineage(r2[0])} {r2[1]}"
                     else:
@@ -399,6 +620,8 @@ def main():
                         for p in a[3].split(","):
                             h, c = p.split(":")
                             hashvals[int(h)] = int(c)
+                    if nxt(2):
+                        hashvals = dict(hashvals)                   # a plain dict works as well as the defaultdict
                     agg = summarize(hashvals, dbs, thr, ign)
                     res = "ok " + join_or("|", sorted(f"{show_lineage(k)}={v}" for k, v in agg.items()))
                 elif op == "cls":
@@ -468,6 +691,11 @@ def main():
                             rr = list(_csv.reader(fp))
                         assert rr[0] == ["identifiers"] + TAXLIST, rr[0]
                         res = "ok " + join_or("|", sorted(tok_of(r[0]) + "=" + names_tok(r[1:]) for r in rr[1:]))
+                elif op == "rlca":
+                    from sourmash.tax.tax_utils import RankLineageInfo
+                    la_, lb_ = lineage_of(a[0]) or (), lineage_of(a[1]) or ()
+                    r = RankLineageInfo(lineage=la_).find_lca(RankLineageInfo(lineage=lb_))
+                    res = "ok none" if r is None else "ok " + show_lineage(r.filled_lineage)
                 elif op == "match":
                     res = f"ok {lca_utils.is_lineage_match(lineage_of(a[1]) or (), lineage_of(a[2]) or (), rank_name(int(a[0])))}"
                 elif op == "mklin":
@@ -485,6 +713,8 @@ def main():
                 else:
                     res = "bad-op"
             except (IndexError, KeyError) as e:
+                if os.environ.get("LCA_TRACE"):
+                    import traceback; traceback.print_exc()
                 # a missing handle is a malformed op; a KeyError raised by the code under test is an observation
                 import traceback
                 tb = traceback.extract_tb(e.__traceback__)
